@@ -12,7 +12,7 @@ import (
 )
 
 func init() {
-	register("C15", "Decides the all-or-error shape of a multi-query request for all query counts, failure subsets and completion orders: (R15.1) the run and probe goroutines are spawned in counted loops 0 <= i < TracerouteQueries / E2eQueries with exactly one go statement on every path through the body, each preceded by wg.Add(1) and each closure starting with defer wg.Done(); (R15.2) by path enumeration inside each closure, every path appends exactly one element to exactly one of {Runs, error list} (run closure), exactly one RTT plus one error exactly on the failure branch, that RTT being the constant 0 (probe closure), and nothing to any of them (public-IP closure), all under the one mutex; (R15.3) after wg.Wait() a non-empty error list returns (nil, errors.Join(whole list)), otherwise the accumulated document, and RunTraceroute returns (nil, err) before any enrichment; (R15.4) runE2eProbeOnce propagates the run error unchanged and maps 'no destination hop' to (0, nil). That the per-run function variable is runTracerouteOnce in production is C11 R11.3's no-global-write result.", runC15)
+	register("C15", "Decides the all-or-error shape of a multi-query request for all query counts, failure subsets and completion orders: (R15.1) the run and probe goroutines are spawned in counted loops 0 <= i < TracerouteQueries / E2eQueries with exactly one go statement on every path through the body, each preceded by wg.Add(1) and each closure starting with defer wg.Done(); (R15.2) by path enumeration inside each closure, every path appends exactly one element to exactly one of {Runs, error list} (run closure), exactly one RTT plus one error exactly on the failure branch, that RTT being the constant 0 (probe closure), and nothing to any of them (public-IP closure), all under the one mutex; (R15.3) after wg.Wait() a non-empty error list returns (nil, errors.Join(whole list)), otherwise the accumulated document, and RunTraceroute returns (nil, err) before any enrichment; (R15.4) runE2eProbeOnce propagates the run error unchanged and maps 'no destination hop' to (0, nil). That the per-run function variable is runTracerouteOnce in production is C11 R11.3's no-global-write result. (R15.4) The result of a module function that returns a nil pointer with every error is dereferenced, in the front-end packages, only where the error is known to be nil.", runC15)
 }
 
 type appendEv struct {
